@@ -184,6 +184,23 @@ func programs() []program {
 		v := resource.NewValue(resource.WithInitialValue(tm(12)))
 		par(func() { v.Set(tm(10)) }, func() { touch(v.Get()); touch(v.Get(resource.WithReadPaths(&T{}, "default_nested_message"))) })
 	})
+	// the degenerate read masks (empty: nothing is wanted; unknown path: nothing can be read) are reads like any other
+	add("value/Set||Get(empty mask)||Get(invalid mask)", func() {
+		v := resource.NewValue(resource.WithInitialValue(tm(12)))
+		par(func() { v.Set(tm(10)) },
+			func() { touch(v.Get(resource.WithReadMask(&fieldmaskpb.FieldMask{}))) },
+			func() { touch(v.Get(resource.WithReadMask(&fieldmaskpb.FieldMask{Paths: []string{"no_such_field"}}))) })
+	})
+	add("collection/Update||Get(empty mask)||List(empty mask)", func() {
+		c := resource.NewCollection(resource.WithInitialRecord("a", tm(12)))
+		par(func() { c.Update("a", tm(10)) },
+			func() { m, _ := c.Get("a", resource.WithReadMask(&fieldmaskpb.FieldMask{})); touch(m) },
+			func() {
+				for _, m := range c.List(resource.WithReadMask(&fieldmaskpb.FieldMask{})) {
+					touch(m)
+				}
+			})
+	})
 	add("value/Set(interceptors)||Set(mask)", func() {
 		v := resource.NewValue(resource.WithInitialValue(tm(12)))
 		par(func() {
